@@ -12,7 +12,7 @@ from props.C16 import _enc_dict
 
 REQUIRED_THEOREMS = ['Usid.C05.returned_is_genuine', 'Usid.C05.resume_is_most_recent_partial', 'Usid.C05.else_fresh',
                      'Usid.C05.malformed_never_used', 'Usid.C05.override_fresh_and_frame', 'Usid.C05.complete_iff_nothing_pending']
-RULE = ('[also: the same construction as rank 1 of an MPI job - every rank must classify the earlier groups alike] [also: histories written by the library itself for two datasets of the same name in different groups, results next to the source / in a common group / in another file] [also: float / string lists and booleans as parameters, one value against a list of values, a recorded source reference pointing at this or at ANOTHER dataset of the file, verbose=True; no group other than the reused one may change] histories of 0-5 earlier result groups (built with raw h5py) over dataset names {Raw, Raw_Data, Data, aw} x tools '
+RULE = ('[also: the re-check pattern of child classes - constructed without parameters, parameters set, earlier results looked up again] [also: the same construction as rank 1 of an MPI job - every rank must classify the earlier groups alike] [also: histories written by the library itself for two datasets of the same name in different groups, results next to the source / in a common group / in another file] [also: float / string lists and booleans as parameters, one value against a list of values, a recorded source reference pointing at this or at ANOTHER dataset of the file, verbose=True; no group other than the reused one may change] histories of 0-5 earlier result groups (built with raw h5py) over dataset names {Raw, Raw_Data, Data, aw} x tools '
         '{Fit, Fitter, it, Fit_x}, parameters equal or differing in one value (including a large whole number off by one and a float off by a relative 4e-8)/type/length/key, progress records of every '
         'kind (complete, partial, legacy attribute only, neither, wrong dtype/length/rank, non-dataset, values outside '
         '{0,1}, nearly complete large N), same-file and separate-file targets (also a foreign source with the same '
@@ -125,7 +125,8 @@ def generate(seed, tier):
         separate = rng.random() < 0.3
         if separate and prior and rng.random() < 0.4:
             prior[rng.randrange(len(prior))]['foreign'] = True
-        cases.append({'n': n, 'm': 2, 'dset': d, 'tool': t, 'prior': prior, 'separate': separate,
+        recheck = derived_rng(seed, 'C05r', i).random() < 0.25
+        cases.append({'recheck': recheck, 'n': n, 'm': 2, 'dset': d, 'tool': t, 'prior': prior, 'separate': separate,
                       'override': rng.random() < 0.25, 'query_parms': copy.deepcopy(BASE_PARMS),
                       'verbose': rng.random() < 0.15})
     # histories written by the LIBRARY itself: two datasets of the same name in different groups of one file, results
@@ -290,8 +291,18 @@ def run_impl(inp, work):
             kw = {} if ft is None else {'h5_target_group': parent}
             if inp.get('verbose'):
                 kw['verbose'] = True
-            r = call(lambda: RowProc(mains[inp['dset']], process_name=inp['tool'], parms=inp['query_parms'],
-                                     cores=1, **kw))
+            if inp.get('recheck'):
+                # the pattern of child classes: construct without parameters (every group of the tool matches), set the
+                # parameters, look for earlier results AGAIN
+                def _construct():
+                    q = RowProc(mains[inp['dset']], process_name=inp['tool'], parms={}, cores=1, **kw)
+                    q.parms_dict = dict(inp['query_parms'])
+                    q.duplicate_h5_groups, q.partial_h5_groups = q._check_for_duplicates()
+                    return q
+                r = call(_construct)
+            else:
+                r = call(lambda: RowProc(mains[inp['dset']], process_name=inp['tool'], parms=inp['query_parms'],
+                                         cores=1, **kw))
         if r[0] == 'err':
             return {'construct_err': r[1]}
         p = r[1]
